@@ -8,7 +8,7 @@ import GcArena.Model.Builder
         must come first: isize::MAX, size/alignment of GcHeader as observed by the harness,
         size_of::<usize>().  Answer `config ok`.
     sized <meta_size> <meta_align> <value_size> <value_align>
-    dst <slice|str|swh> <h_size> <h_align> <e_size> <e_align> <len>
+    dst <slice|str|swh|slice-direct|str-direct|swh-direct> <h_size> <h_align> <e_size> <e_align> <len>
         Answer `alloc <size> <align> value <off> header <off> meta <off|-> written <ivals|->
         release <size> <align> <base>` (+ ` vsize <n> valign <n> sliceoff <n>` for dst) or `none`.
     L from <size> <align> | L array <esize> <ealign> <n> | L extend <s1> <a1> <s2> <a2>
@@ -185,10 +185,13 @@ def answer (c : Config) (ws : List String) : String :=
       let h : Layout := ⟨hs, ha⟩
       let e : Layout := ⟨es, ea⟩
       let okKind :=
+        -- `…-direct`: the same `AllocMeta` impl reached directly through
+        -- `GcBuilder::new_with_type_and_ptr_meta` (`SlicePtrMeta` = `sliceKind`,
+        -- `StrPtrMeta` = `strKind`, `SliceWithHeaderPtrMeta` = `sliceWithHeaderKind`)
         match kind with
-        | "slice" => h == unitLayout
-        | "str" => h == unitLayout && e == byteLayout
-        | "swh" => true
+        | "slice" | "slice-direct" => h == unitLayout
+        | "str" | "str-direct" => h == unitLayout && e == byteLayout
+        | "swh" | "swh-direct" => true
         | _ => false
       if okKind && isType c h && isType c e && isType c ⟨c.word, c.word⟩ then
         let k := sliceWithHeaderKind c.maxSize c.word h e
